@@ -64,6 +64,8 @@ def parse_snapshot(tokens):
             log.append(("act", vals[i + 1], vals[i + 2], vals[i + 3])); i += 4
         elif k == "fail":
             log.append(("fail",)); i += 1
+        elif k == "svc":
+            log.append(("svc", vals[i + 1])); i += 2
         elif k in ("acterr", "sched", "cancel", "cut", "err", "can", "enter", "leave", "clock"):
             log.append((k, vals[i + 1])); i += 2
         elif k == "trans":
